@@ -317,7 +317,12 @@ def Site.path : Site → Path
       [("user/manager.py|UserManager.stop", "cancel:self._management_task")])
   | .trackRetry => .chain (some "users") (stopLinks ++
       [("user/manager.py|UserManager.stop", "call:self._tracking_manager.stop"),
-       ("user/manager.py|UserTrackingManager.stop", "cancel:self._tracked_users.values()[*].retry_task")])
+       ("user/manager.py|UserTrackingManager.stop", "cancel:self._tracked_users.values()[*].retry_task"),
+       -- `stop()` reaches a retry only through the handle `retry_task` of a user that is still registered: the
+       -- retry is cancelled before its handle is replaced (`_set_tracking_state`, RETRY_PENDING) and before the
+       -- user is dropped from `_tracked_users` (`_tracking_task`, no flags left) -- both through `_cancel_retry`
+       ("user/manager.py|UserTrackingManager._set_tracking_state", "cancel:tracked_user.retry_task"),
+       ("user/manager.py|UserTrackingManager._tracking_task", "cancel:tracked_user.retry_task")])
   | .tracking => .chain (some "users") (stopLinks ++
       [("user/manager.py|UserManager.stop", "call:self._tracking_manager.stop"),
        ("user/manager.py|UserTrackingManager.stop", "cancel:self._tracked_users.values()[*].task")])
